@@ -1,6 +1,6 @@
 from pyvc.runner import register_modules
 
-register_modules("C01", "contracts.C01_variables", "contracts.lemmas_float", "bounded.C01_api")
+register_modules("C01", "contracts.C01_variables", "contracts.C01_containers", "contracts.lemmas_float", "bounded.C01_api")
 LEVEL = "proof"
 ASSUMPTIONS = [
     "A-STRUCT: struct.pack/unpack behave as documented (big-endian standard sizes; 'f' rounds to nearest even and raises OverflowError on overflow); float<->bytes conversions are uninterpreted functions in the array VCs, their IEEE-754 meaning enters only through the lemmas LemmaFloatBounds proved over all bit patterns",
